@@ -259,3 +259,5 @@ func ftpRoot() string {
 	}
 	return base + "/" + best
 }
+
+func timeNowPlusZero() time.Time { return time.Now() }
